@@ -421,10 +421,12 @@ PROPS["C11"] = {
     "quick": [
         {"test": "^TestRegress", "timeout": 200},
         {"test": "^TestLifecycle$", "checks": 300, "steps": 40, "shards": 12, "shrinktime": "15s", "timeout": 600},
+        {"test": "^TestGeneratorFreshAfterUnbindDuringWrite$", "checks": 150, "shards": 2, "timeout": 300},
     ],
     "thorough": [
         {"test": "^TestRegress", "timeout": 200},
         {"test": "^TestLifecycle$", "checks": 1200, "steps": 50, "shards": 15, "shrinktime": "30s", "timeout": 1800},
+        {"test": "^TestGeneratorFreshAfterUnbindDuringWrite$", "checks": 2000, "shards": 4, "timeout": 900},
     ],
 }
 
